@@ -191,8 +191,8 @@ def updateStatus (ops : StoreOps σ ρ) (st : Srv σ) (u inst : Str) : Srv σ ×
   else match st.stores.get shardId with
     | none => (st, .noStore shardId)
     | some store =>
-      let (store', r) := ops.update u inst store
-      ({ st with stores := st.stores.set shardId store' }, .served r)
+      let r := ops.update u inst store
+      ({ st with stores := st.stores.set shardId r.1 }, .served r.2)
 
 /-- `DoAcquire(upstream, acquireRequest)` -/
 def doAcquire (ops : StoreOps σ ρ) (st : Srv σ) (u inst : Str) (tokens : Int) : Srv σ × Reply ρ :=
@@ -201,8 +201,8 @@ def doAcquire (ops : StoreOps σ ρ) (st : Srv σ) (u inst : Str) (tokens : Int)
   else match st.stores.get shardId with
     | none => (st, .noStore shardId)
     | some store =>
-      let (store', r) := ops.acquire u inst tokens store
-      ({ st with stores := st.stores.set shardId store' }, .served r)
+      let r := ops.acquire u inst tokens store
+      ({ st with stores := st.stores.set shardId r.1 }, .served r.2)
 
 /-- `UpstreamConditionHandler(cluster)` with `cluster.Name = u` -/
 def upstreamHandler (ops : StoreOps σ ρ) (st : Srv σ) (u : Str) : Srv σ × Reply ρ :=
@@ -211,12 +211,8 @@ def upstreamHandler (ops : StoreOps σ ρ) (st : Srv σ) (u : Str) : Srv σ × R
   else match st.stores.get shardId with
     | none => (st, .noStore shardId)
     | some store =>
-      if st.lister.contains u then
-        let (store', e) := ops.syncUpstream u store
-        ({ st with stores := st.stores.set shardId store' }, .handled e)
-      else
-        let (store', e) := ops.deleteUpstream u store
-        ({ st with stores := st.stores.set shardId store' }, .handled e)
+      let r := if st.lister.contains u then ops.syncUpstream u store else ops.deleteUpstream u store
+      ({ st with stores := st.stores.set shardId r.1 }, .handled r.2)
 
 /-- `deleteCondition(limitStore, condition, reason)` where `limitStore = r.limitStoreMap[k]` (the callers iterate
     over the map) and the condition has upstream `u`, name `name`, instance `inst`. -/
@@ -241,8 +237,8 @@ def syncShard (ops : StoreOps σ ρ) (s : Int) : List Str → Srv σ → Srv σ 
   | [], st => (st, true)
   | u :: us, st =>
     if shardOf st u = s then
-      let (st', r) := upstreamHandler ops st u
-      if r.isErr then (st', false) else syncShard ops s us st'
+      let r := upstreamHandler ops st u
+      if r.2.isErr then (r.1, false) else syncShard ops s us r.1
     else syncShard ops s us st
 
 /-- `rateLimiter.stopLeading(shardId)` -/
@@ -256,11 +252,11 @@ def startLeading (ops : StoreOps σ ρ) (st : Srv σ) (s : Int) : Srv σ :=
     match ops.newStore s st.n with
     | none => st                                   -- "limit store type not found"
     | some store0 =>
-      let (store1, ok) := ops.load store0
-      if !ok then st                               -- created, Load failed, deleted again
+      let l := ops.load store0
+      if !l.2 then st                              -- created, Load failed, deleted again
       else
-        let (st2, ok2) := syncShard ops s st.lister { st with stores := st.stores.set s store1 }
-        if ok2 then st2 else stopLeading st2 s
+        let r := syncShard ops s st.lister { st with stores := st.stores.set s l.1 }
+        if r.2 then r.1 else stopLeading r.1 s
 
 /-- `leaderElector.setLeader(shardId, identity)` (OnNewLeader) -/
 def setLeader (st : Srv σ) (s : Int) (id : Str) : Srv σ := { st with leaders := st.leaders.set s id }
@@ -274,25 +270,26 @@ def electorStop (st : Srv σ) (s : Int) : Srv σ :=
   let st1 := if leaderName st s == st.me then { st with leaders := st.leaders.del s } else st
   stopLeading st1 s
 
-/-- first loop of `leaderCheck` over the snapshot `leaders := GetLeaders()` -/
-def checkStart (ops : StoreOps σ ρ) : List (Int × Str) → Srv σ → Srv σ
+/-- is `shard` led by `me` according to the snapshot `leaders := GetLeaders()`: the snapshot is a Go map
+    (one entry per shard), so `for s, leader := range leaders { s == shard && leader.Leader == r.identity }`
+    is `leaders[shard]` present with that leader -/
+def ledIn (leaders : AList Str) (me : Str) (shard : Int) : Bool := leaders.get shard == some me
+
+/-- first loop of `leaderCheck` over the shards of the snapshot -/
+def checkStart (ops : StoreOps σ ρ) (leaders : AList Str) : List Int → Srv σ → Srv σ
   | [], st => st
-  | (shard, leader) :: rest, st =>
-    let st' := if leader == st.me then
+  | shard :: rest, st =>
+    let st' := if ledIn leaders st.me shard then
         (match st.stores.get shard with
          | none => startLeading ops st shard
          | some _ => st)
       else st
-    checkStart ops rest st'
-
-/-- is `shard` led by `me` according to the snapshot (`s == shard && leader.Leader == r.identity`) -/
-def ledIn (leaders : AList Str) (me : Str) (shard : Int) : Bool :=
-  leaders.any (fun p => p.1 == shard && p.2 == me)
+    checkStart ops leaders rest st'
 
 /-- `rateLimiter.leaderCheck()` -/
 def leaderCheck (ops : StoreOps σ ρ) (st : Srv σ) : Srv σ :=
   let leaders := st.leaders
-  let st1 := checkStart ops leaders st
+  let st1 := checkStart ops leaders leaders.keys st
   let leaderToStop := st1.stores.keys.filter (fun shard => !ledIn leaders st.me shard)
   leaderToStop.foldl stopLeading st1
 
